@@ -76,16 +76,17 @@ def do_seed(sid):
 def main():
     what = sys.argv[1] if len(sys.argv) > 1 else "all"
     jobs = int(sys.argv[sys.argv.index("--jobs") + 1]) if "--jobs" in sys.argv else 6
+    only = sys.argv[sys.argv.index("--only") + 1] if "--only" in sys.argv else ""   # name prefix filter
     bad = 0
     with concurrent.futures.ThreadPoolExecutor(max_workers=jobs) as ex:
         if what in ("refactors", "all"):
-            for name, tests_ok, alarms, und in ex.map(do_refactor, sorted(glob.glob(os.path.join(VERIF, "selftest", "refactors", "*.diff")))):
+            for name, tests_ok, alarms, und in ex.map(do_refactor, sorted(x for x in glob.glob(os.path.join(VERIF, "selftest", "refactors", "*.diff")) if os.path.basename(x).startswith(only))):
                 status = "ok" if tests_ok and not alarms else "PROBLEM"
                 if status != "ok":
                     bad += 1
                 print("refactor %-28s tests=%s alarms=%s undecided=%s  %s" % (name, "green" if tests_ok else "RED", alarms or "none", und or "none", status))
         if what in ("seeds", "all"):
-            sids = sorted(x for x in os.listdir(os.path.join(VERIF, "seeded")) if os.path.exists(os.path.join(VERIF, "seeded", x, "patch.diff")))
+            sids = sorted(x for x in os.listdir(os.path.join(VERIF, "seeded")) if os.path.exists(os.path.join(VERIF, "seeded", x, "patch.diff")) and x.startswith(only))
             for sid, prop, caught, und in ex.map(do_seed, sids):
                 own = prop in caught
                 status = "caught" if own else ("expected-miss" if sid in EXPECTED_MISSES else "MISSED")
